@@ -1,6 +1,10 @@
 SPECIFICATION TraceSpec
 CONSTANTS MaxCalls = 99
+          SideCalls = 99
+          ExtMax = 99
+          ExtDepth = 99
           ZeroStatusFix = TRUE
+          InfoFix = FALSE
 INVARIANTS Judge Fidelity
 POSTCONDITION AllConsumed
 CHECK_DEADLOCK FALSE
